@@ -16,7 +16,7 @@ from vf import termsmt as TS
 
 PID = "C08"
 LEVEL = "model_checking"
-ITEM_TIMEOUT = {"quick": 900, "thorough": 3600}
+ITEM_TIMEOUT = {"quick": 900, "thorough": 1800}
 ASSUMPTIONS = [
     "addresses are symbolic in a 32-byte window (the code uses addresses only through comparisons and differences); no address wrap-around",
     "within one script all expression objects are written and interpreted with the same endianness (mixed-endian re-reads are a known finding of C09)",
@@ -108,7 +108,7 @@ def scripts(tier, seed):
         rnd2.shuffle(mems)
         return out[:12] + core3[:6] + rich[:12] + copies[:6] + mems[:4]
     out = out + copies + mems
-    return out + core3[:400] + rich[:1500]
+    return out + core3[:50] + rich[:120]
 
 
 def items(tier, seed):
@@ -297,7 +297,7 @@ def run_item(item):
     with symx.injected():
         for k, script in enumerate(scripts(tier, seed)[lo:hi]):
             E = symx.Engine(timeout_ms=30000, caps=dict(index=None, hash=None, format=None, str=None), max_decisions=8000)
-            paths = E.explore(make_fn(script), max_paths=4000 if tier == "quick" else 40000, deadline=time.time() + (60 if tier == "quick" else 900))
+            paths = E.explore(make_fn(script), max_paths=4000 if tier == "quick" else 12000, deadline=time.time() + (60 if tier == "quick" else 100))
             res["scripts"] += 1
             res["states"] += len(paths)
             res["transitions"] += E.stats["forks"]
@@ -455,9 +455,9 @@ def coverage(agg, tier):
         "scripts": agg.get("scripts", 0), "incomplete_explorations": agg.get("incomplete_explorations", 0), "unsupported_paths": agg.get("unsupported_paths", 0),
         "stubs": symx.STUBS,
         "rule": "state = one path of a script executed on MemoryZone/MemoryMap with symbolic addresses (each path = one overlap configuration); obligation = per read byte: written-ness and value equal the z3 last-write-wins model; traces validated = path models re-run concretely against a python dict",
-        "bounds": {"scripts": "<= 4 writes (raw/cst/reg/comp/slc/mem-expression objects of 1..4 bytes) + <= 2 reads + <= 1 of copy/restruct/shift(symbolic offset), on a bare zone, the concrete zone of a MemoryMap, a symbolic zone (ptr(base, disp)) and merge of two maps; copy(): the original is re-read against a snapshot of the model at every later read; quick: 40 seed-selected scripts (incl. 6 copy and 4 stored-memory-expression scripts), thorough: all 225 two-write scripts + 400 three-write + 1500 seeded",
+        "bounds": {"scripts": "<= 4 writes (raw/cst/reg/comp/slc/mem-expression objects of 1..4 bytes) + <= 2 reads + <= 1 of copy/restruct/shift(symbolic offset), on a bare zone, the concrete zone of a MemoryMap, a symbolic zone (ptr(base, disp)) and merge of two maps; copy(): the original is re-read against a snapshot of the model at every later read; quick: 40 seed-selected scripts (incl. 6 copy and 4 stored-memory-expression scripts), thorough: every two-write script (all kind pairs x sizes 1/2/4) + all copy and stored-memory-expression scripts + 50 three-write + 120 seeded richer scripts",
                    "addresses": "each address an independent 5-bit symbol (32-byte window), shift offset 3-bit",
-                   "paths": "quick <= 4000 paths / 60 s per script, thorough <= 40000 / 900 s",
+                   "paths": "quick <= 4000 paths / 60 s per script, thorough <= 12000 / 100 s",
                    "outside": "objects > 4 bytes, > 4 writes, mixed endianness within one script, address wrap-around"},
         "exhaustive": False,
     }
